@@ -74,9 +74,9 @@ func VerifCompile(srcDir, dstDir, keepTmpDir string, report func(VerifEvent), op
 				return
 			}
 			guard("optimize", f.Filename, func() {
-				o.optimizeImports(f)
 				o.optimizeDelayCall()
 				o.etaReduction()
+				o.optimizeImports(f)
 				filename := strings.ReplaceAll(f.Filename, tmpOutputDir, dstDir)
 				f.WriteWithComment(filename, comment)
 			})
